@@ -99,9 +99,11 @@ Init == /\ active = FALSE /\ calls = 0 /\ streams = 0 /\ attempt = 0 /\ phase = 
 
 (* ------------------------------------------------------------ the caller *)
 \* a public call starts (also with a connection kept from a previous call)
-StartCall == /\ ~active /\ phase = "idle" /\ calls < MaxCalls
-             /\ active' = TRUE /\ calls' = calls + 1 /\ streams' = 0 /\ phase' = "between" /\ started' = now /\ result' = ""
-             /\ UNCHANGED <<attempt, pos, conn, nconn, vetted, tainted, closed, dirty, now, lastTick, connStart, tmo, faults, usedCmd>>
+\* (the caller may have been idle for any length of time since the last call returned: the call starts at time t >= now)
+StartCallAt(t) == /\ ~active /\ phase = "idle" /\ calls < MaxCalls /\ t >= now
+                  /\ active' = TRUE /\ calls' = calls + 1 /\ streams' = 0 /\ phase' = "between" /\ now' = t /\ started' = t /\ result' = ""
+                  /\ UNCHANGED <<attempt, pos, conn, nconn, vetted, tainted, closed, dirty, lastTick, connStart, tmo, faults, usedCmd>>
+StartCall == StartCallAt(now)
 
 \* the call runs its next command exchange through a new retry stream with per-item timeout t
 StartStream(t) == /\ active /\ phase = "between" /\ streams < MaxStreams
@@ -211,7 +213,7 @@ Command == \/ (\E d \in D0 : FrameDelivered(d) /\ phase = "cmd" /\ pos <= Replie
 Faulty == ((FrameBroken \/ FrameSilent) /\ ~(phase = "cmd" /\ (pos = Replies + 1 \/ conn \in dirty))) \/ HandshakeHang
 Client == Tick \/ Connect \/ Handshake \/ Command \/ Faulty
 Caller == StartStream(Timeout) \/ Return
-Next == StartCall \/ Caller \/ Client
+Next == (\E d \in D0 : StartCallAt(now + d)) \/ Caller \/ Client
 Spec == Init /\ [][Next]_vars /\ WF_vars(Client) /\ WF_vars(Caller)
 
 (* ---------------------------------------------------------------- P_C09 *)
